@@ -9,7 +9,7 @@ use crate::util::*;
 use crate::world::{enc_content, RWorld};
 use std::io::{Cursor, Read, Seek, SeekFrom, Write};
 
-const CONFIGS: [&str; 7] = ["mem", "phys", "alt(mem)", "alt(phys)", "ovl(mem,mem)", "ovl(phys,mem)", "ovl(mem,phys)"];
+const CONFIGS: [&str; 9] = ["mem", "phys", "alt(mem)", "alt(phys)", "ovl(mem,mem)", "ovl(phys,mem)", "ovl(mem,phys)", "ovl(mem,mem,mem)", "ovl(mem,mem,mem,mem)"];
 
 fn content(rng: &mut Rng, thorough: bool) -> Vec<u8> {
     let n = match rng.below(12) {
@@ -141,6 +141,26 @@ pub fn run(o: &Opts) -> Report {
             // ---- write sessions on one path: create, then appends / re-creates
             let wpath = *rng.pick(&["/g", "/é.out", "/f"][..]);
             let mut file_bytes: Option<Vec<u8>> = if wpath == fpath && !removed { Some(data.clone()) } else { None };
+            // overlays: the path may exist in SEVERAL lower layers with different bytes; the first
+            // of them is the one the overlay serves and the one an append must continue
+            if cfg_kind.starts_with("ovl(") && wpath != fpath && rng.chance(2, 3) {
+                let n_layers = cfg_kind.matches(',').count() + 1;
+                let mut first: Option<Vec<u8>> = None;
+                for li in 1..n_layers {
+                    if n_layers > 2 && li + 1 < n_layers && first.is_none() && rng.chance(1, 3) {
+                        continue; // absent from this layer, present further down
+                    }
+                    let b: Vec<u8> = format!("layer{}:", li).into_bytes().into_iter().chain(content(&mut rng, false).into_iter().take(40)).collect();
+                    push(&mut world, &mut lines, &mut impl_out, &mut expect, format!("op {} write {} {}", li, enc_str(wpath), enc_bytes(&b)), Some("ok".into()));
+                    if first.is_none() {
+                        first = Some(b);
+                    }
+                }
+                if let Some(b) = &first {
+                    push(&mut world, &mut lines, &mut impl_out, &mut expect, format!("op {} read {}", t, enc_str(wpath)), Some(format!("ok {}", enc_content(b))));
+                }
+                file_bytes = first;
+            }
             let n_sessions = 1 + rng.below(if o.thorough() { 6 } else { 3 });
             for si in 0..n_sessions {
                 let append = file_bytes.is_some() && rng.chance(1, 2);
@@ -196,6 +216,22 @@ pub fn run(o: &Opts) -> Report {
                             push(&mut world, &mut lines, &mut impl_out, &mut expect, "hflush 1".into(), Some("ok".into()));
                             // data flushed through a still-open handle is visible to new readers
                             push(&mut world, &mut lines, &mut impl_out, &mut expect, format!("op {} read {}", t, enc_str(wpath)), Some(format!("ok {}", enc_content(wc.get_ref()))));
+                            // patch in place right after a flush: seek back k bytes and overwrite exactly
+                            // k bytes, so that length AND position are what they were at the flush;
+                            // then flush again (or leave it to the drop)
+                            let pos = wc.position() as usize;
+                            if seeks_ok && pos > 0 && rng.chance(1, 2) {
+                                let k = 1 + rng.below(pos.min(8));
+                                let r = wc.seek(SeekFrom::Current(-(k as i64)));
+                                push(&mut world, &mut lines, &mut impl_out, &mut expect, format!("hseek 1 cur -{}", k), Some(enc_io_res(&r)));
+                                let patch: Vec<u8> = (0..k).map(|_| 0x80 | (rng.below(64) as u8)).collect();
+                                let r = wc.write(&patch);
+                                push(&mut world, &mut lines, &mut impl_out, &mut expect, format!("hwrite 1 {}", enc_bytes(&patch)), Some(enc_io_res(&r)));
+                                if rng.chance(1, 2) {
+                                    push(&mut world, &mut lines, &mut impl_out, &mut expect, "hflush 1".into(), Some("ok".into()));
+                                    push(&mut world, &mut lines, &mut impl_out, &mut expect, format!("op {} read {}", t, enc_str(wpath)), Some(format!("ok {}", enc_content(wc.get_ref()))));
+                                }
+                            }
                         }
                     }
                 }
